@@ -92,7 +92,7 @@ def run(ck, F):
     if n_f == 0 or n_m == 0:
         ck.undecided("R3", "operation-kinds", "witness crate", f"Send obligations cover {n_m} client methods and {n_f} free operation functions: one kind is missing "
                      f"from the samples")
-    ck.floor("R3", "Send obligations on samples", n_m + n_f + n_s, 20)
+    ck.floor("R3", "Send obligations on samples", n_m + n_f + n_s, 10)
     # R4 on the output grammar
     X = T.extractor(F)
     n = 0
@@ -119,7 +119,7 @@ def run(ck, F):
                                  f"member type is filled from a value of type `{ty}`", fn=fn)
                 if ok_holes:
                     ck.ok("R4", f"{og.nf_str(g.name)}:{og.nf_str(name)}", ev.site, "member type text is owned data (primitive/String/generated struct under Option/Vec)", fn=fn)
-    ck.floor("R4", "struct member templates", n, 8)
+    ck.floor("R4", "struct member templates", n, 4)
 
 
 def RE_NAME_HOLE(ev):
